@@ -185,7 +185,9 @@ func genC19(e *emitter, tier string, seed uint64) {
 		e.run("IX.dbg", fmt.Sprint(fBip16), hexE(append(minimalPush(r.bytes(2)), pushOf(redeem)...)), hexE(lock))
 	}
 	// empty scripts (they exist in the wild): the snapshot's program counter has nothing to point at
-	for _, pair := range [][2]string{{"51", "e"}, {"e", "51"}, {"5151", "e"}, {"00", "e"}, {"516a", "e"}, {"e", "6a"}, {"51", "6a"}} {
+	for _, pair := range [][2]string{{"51", "e"}, {"e", "51"}, {"5151", "e"}, {"00", "e"}, {"516a", "e"}, {"e", "6a"}, {"51", "6a"},
+		// a script that ends with items still on the alt stack (they are dropped at the script boundary)
+		{"51516b", "5187"}, {"51", "516b"}, {"51516b516b", "e"}, {"516b", "516b51"}} {
 		for _, fl := range []int{0, fAfterGenesis, fBip16} {
 			e.run("IX.dbg", fmt.Sprint(fl), pair[0], pair[1])
 		}
